@@ -4,8 +4,8 @@
   through it (src/builtins/core/calendar.rs:366-513).
 
   Modelled: iso8601, gregory, buddhist, roc, japanese (all four are the ISO date under another year numbering),
-  coptic, ethiopic, ethioaa, indian, islamic-civil, islamic-tbla (day-count calendars).
-  Not modelled (astronomical or table driven inside the library): chinese, dangi, hebrew, persian, islamic,
+  coptic, ethiopic, ethioaa, indian, islamic-civil, islamic-tbla, persian (day-count calendars).
+  Not modelled (astronomical or table driven inside the library): chinese, dangi, hebrew, islamic,
   islamic-umalqura, japanext — for those only the crate's own glue (Model/CalGlue.lean) is modelled and the laws of
   Spec/CalLaws.lean are evaluated on the fields the implementation reports.
 -/
@@ -111,6 +111,39 @@ def indian : ACal where
     let gy := (NS.ymdFromEpochDays n).1
     if n - Greg.yearStart gy < 80 then gy - 79 else gy - 78
 
+/-- Persian (Solar Hijri) calendar as the library computes it: the 33-year arithmetic rule, corrected by a table of
+    years which that rule makes leap although the astronomical calendar does not (the day moves to the next year). -/
+def persianTable : List Int :=
+  [1502, 1601, 1634, 1667, 1700, 1733, 1766, 1799, 1832, 1865, 1898, 1931, 1964, 1997, 2030, 2059,
+   2063, 2096, 2129, 2158, 2162, 2191, 2195, 2224, 2228, 2257, 2261, 2290, 2294, 2323, 2327, 2356,
+   2360, 2389, 2393, 2422, 2426, 2455, 2459, 2488, 2492, 2521, 2525, 2554, 2558, 2587, 2591, 2620,
+   2624, 2653, 2657, 2686, 2690, 2719, 2723, 2748, 2752, 2756, 2781, 2785, 2789, 2818, 2822, 2847,
+   2851, 2855, 2880, 2884, 2888, 2913, 2917, 2921, 2946, 2950, 2954, 2979, 2983, 2987]
+
+def inTable (y : Int) : Bool := persianTable.contains y
+
+/-- the new year of `y` is one day early when the year before is in the table -/
+def persianCorr (y : Int) : Int := if inTable (y - 1) then 1 else 0
+
+def persianLeap (y : Int) : Bool :=
+  if inTable y then false else if inTable (y - 1) then true else (25 * y + 11) % 33 < 8
+
+def persianDim (y : Int) (m : Nat) : Int :=
+  if m ≤ 6 then 31 else if m ≤ 11 then 30 else if persianLeap y then 30 else 29
+
+/-- 1 Farvardin 1 AP by the 33-year rule = Julian 622-03-19 minus one day = RD 226895. -/
+def PERSIAN_EPOCH : Int := -492268
+
+def persianStart33 (y : Int) : Int := PERSIAN_EPOCH + 365 * (y - 1) + (8 * y + 21) / 33
+
+def persian : ACal where
+  months := fun _ => 12
+  dim := persianDim
+  yearStart := fun y => persianStart33 y - persianCorr y
+  yearOf := fun n =>
+    let y0 := 1 + (33 * (n - PERSIAN_EPOCH) + 3) / 12053
+    if n - (persianStart33 y0 - persianCorr y0) = 365 ∧ inTable y0 then y0 + 1 else y0
+
 /-! ### Calendar identifiers -/
 
 inductive CalId where
@@ -137,6 +170,7 @@ def CalId.arith : CalId → Option ACal
   | .indian => some Cal.indian
   | .islamicCivil => some Cal.islamicCivil
   | .islamicTbla => some Cal.islamicTbla
+  | .persian => some Cal.persian
   | _ => none
 
 /-- Calendars that are the ISO date under another year numbering. -/
@@ -201,6 +235,7 @@ def yearInfo (cal : CalId) (y m d : Int) : Option String × Option Int × Int :=
   | .indian => (some "saka", some y, y)
   | .islamicCivil => (some "islamic-civil", some y, y)
   | .islamicTbla => (some "islamic-tbla", some y, y)
+  | .persian => (some "persian", some y, y)
   | _ => (none, none, y)
 
 def calLeap (cal : CalId) (y : Int) : Bool :=
@@ -208,6 +243,7 @@ def calLeap (cal : CalId) (y : Int) : Bool :=
   | .coptic | .ethiopic | .ethioaa => y % 4 = 3
   | .indian => Greg.isLeap (y + 78)
   | .islamicCivil | .islamicTbla => islamicLeap y
+  | .persian => persianLeap y
   | _ => Greg.isLeap y
 
 /-- Fields of a day-count calendar at epoch day `n`. -/
@@ -303,6 +339,8 @@ def fromCodes (cal : CalId) (era : Option String) (year : Int) (code : MonthCode
   | .islamicTbla =>
     if era = none ∨ era = some "islamic-tbla" ∨ era = some "islamic" ∨ era = some "ah"
     then arithFromCodes Cal.islamicTbla year code d else none
+  | .persian =>
+    if era = none ∨ era = some "ah" ∨ era = some "persian" then arithFromCodes Cal.persian year code d else none
   | _ => none
 
 end Cal
